@@ -151,6 +151,13 @@ Definition conn_read (c : conn) (chunk : list N) : conn :=
 
 Definition conn_run (chunks : list (list N)) : conn := fold_left conn_read chunks conn_init.
 
+(* conn.Read may return bytes together with os.ErrDeadlineExceeded.  The loop only tests
+   `err != nil && !errors.Is(err, os.ErrDeadlineExceeded)` (end of the loop) and `n > 0`: a
+   deadline error does not matter, the n bytes are handled like any others.  A read event is
+   the chunk and whether it came with the deadline error. *)
+Definition conn_read_ev (c : conn) (ev : list N * bool) : conn := conn_read c (fst ev).
+Definition conn_run_ev (events : list (list N * bool)) : conn := fold_left conn_read_ev events conn_init.
+
 (* the states after each read, for the per-read observations *)
 Fixpoint conn_trace (c : conn) (chunks : list (list N)) : list conn :=
   match chunks with
